@@ -263,6 +263,15 @@ class SymCtx:
         self.ns.setdefault(name, e)
         return e
 
+    def model_threads(self, modref):
+        """opt-in: threading.Thread objects run their target atomically at a scheduler-chosen point
+        between start() and the return of join(); every schedule is explored (models2._model_thread).
+        modref names the repository module whose `Thread` the native back end replaces."""
+        self.I.cfg['thread_model'] = {'pending': []}
+        self.I.note_assumption('threading.Thread(target=f, args=a): f(*a) runs exactly once, atomically, at some point '
+                               'between start() and the return of join(); all such schedules are explored; '
+                               'interleavings inside a thread body are not')
+
     def func(self, ref):
         return self.I.resolve(ref)
 
@@ -316,6 +325,17 @@ class SymCtx:
         self.ns['trace'] = tuple((n, tuple(a), PDict(list(k.items()))) for n, a, k in self.I.trace)
         self.called = True
         return self.ns['result']
+
+    def set(self, obj, attr, value):
+        self.I.setattr(obj, attr, self._lift(value))
+
+    def getfield(self, obj, attr):
+        return self.I.getattr(obj, attr)
+
+    def use_stubs(self, modref, names):
+        """native back end only: replace Timer / sleep / time / Thread ... in module `modref` by
+        recording stubs; the symbolic interpreter models those externals already"""
+        self.I.load_module(modref)
 
     def invoke(self, target, *args, **kwargs):
         """call a real function/method as a side effect (e.g. from inside an external callback)"""
@@ -452,6 +472,8 @@ class SymCtx:
                 out[name] = ev_int(term)
             elif kind == 'bool':
                 out[name] = z3.is_true(m.eval(term, model_completion=True))
+            elif kind == 'float':
+                out[name] = ev_float(term)
         return out
 
     # ------------------------------------------------------------------ spec helpers
